@@ -14,7 +14,7 @@ CHECKS = {
    text="Every prefix cut of each recorded disk trace, sampled lossy (un-barriered writes lost/reordered) cuts and cuts of the recovery run itself are recovered by the real MakeNfs and must equal the reference state after an operation prefix in [acknowledged-stable, issued]; then fsck and a continuation workload. Concurrent traces (2-4 clients confined to their own directories, journal-rejected requests next to them): every client's subtree must be a prefix state of its own sequence within [durable, issued] and the combination must respect real time across clients; an observer's READDIRPLUS pins the operation that produced its listing as durable. Directed: each kind of stable request parked at a commit hook next to journal-rejected requests, image at the instant of its reply. Held on the traces explored, not a proof.",
    note="disk model: atomic 4 KiB writes, device-wide barriers (what GoJournal assumes); traces are samples; reference model conventions of DESIGN §2.2", ref="§4 C01"),
  "C02": dict(cat="exploration", engine="seq", tech="differential monitor against an executable reference model over seeded operation sequences (direct and RPC/XDR adapters)",
-   text="Seeded state-aware sequences over all 22 procedures are executed on the real server and on a reference model in lock-step; every reply and periodic whole-tree dumps (also after restarts) must agree.",
+   text="Seeded state-aware sequences over all 22 procedures are executed on the real server and on a reference model in lock-step; every reply and periodic whole-tree dumps (also after restarts) must agree. Restart included: the real cmd/go-nfsd binary (built without the verif tag) behind a fake port mapper, on a file disk, driven over TCP, with SIGKILL/SIGINT restarts on its disk file.",
    note="reference model conventions of DESIGN §2.2; inputs are sampled", ref="§4 C02"),
  "C03": dict(cat="exploration", engine="conc", tech="recorded concurrent histories checked for linearizability with porcupine against the reference model, schedules widened by seeded yields at lock/commit hooks and by directed parking of one request at a transaction abort or inside a disk read",
    text="Many short conflicting histories (3-4 clients) recorded at the client boundary, checked by porcupine against the sequential reference; final state included as a read. Directed histories park one request at its n-th abort or inside its n-th disk read (holding its locks and cache slots) while other requests and a sweep over more inodes than the inode cache holds run against it.",
@@ -29,7 +29,7 @@ CHECKS = {
    text="Every inode-lock request is observed with the locks already held: definite wait-for cycles and self-waits are detected before blocking, the accumulated lock-order graph must be acyclic, and retries are bounded in logical steps.",
    note="only inode locks are hooked; the one other lock that requests wait on (Nfs.renameMu, serializing cross-directory renames) is covered by the progress-based wedge detector, not by the wait-for graph; unbounded liveness is replaced by the logical criteria of DESIGN §2.6", ref="§4 C06"),
  "C07": dict(cat="fault_enumeration", engine="crash", tech="crash-image enumeration with stability-aware lower bounds + reply monitor for committed level and write verifier",
-   text="Write-heavy traces mixing UNSTABLE/DATA_SYNC/FILE_SYNC, COMMIT and metadata operations (also big truncations and SETATTRs that change nothing after unstable data) are cut at every point; concurrent writers with journal-rejected requests next to them; commit-gate runs; the recovered state must be a prefix containing everything acknowledged stable; committed level and verifier checked on every reply.",
+   text="Write-heavy traces mixing UNSTABLE/DATA_SYNC/FILE_SYNC, COMMIT and metadata operations (also big truncations and SETATTRs that change nothing after unstable data) are cut at every point; concurrent writers with journal-rejected requests next to them; commit-gate runs; the recovered state must be a prefix containing everything acknowledged stable; committed level and verifier checked on every reply. End to end: the real binary with -unstable=false must answer every WRITE FILE_SYNC and lose nothing at a SIGKILL right after a reply; verifiers compared across real process instances.",
    note="same disk model as C01", ref="§4 C07"),
  "C08": dict(cat="exploration", engine="seq", tech="history monitor binding every issued handle to one object; dead-handle probes of every procedure and handle position; sweep over the whole inode table",
    text="Inode-reuse-heavy sequences with restarts; handle/object bijection; dead and reused-number handles must be answered NFS3ERR_STALE everywhere. Inode-table sweep: every inode number up to the last is handed out, used through its handle, freed and handed out again after a restart.",
@@ -38,10 +38,10 @@ CHECKS = {
    text="On nearly full disks (and, for requests that fail only at commit time because the journal rejects them, on a roomy one) every failing RPC is followed by a comparison of free counts, the whole tree against the reference (where it never happened), fsck and cache/disk coherence.",
    note="counts, not numbers, are compared (next-fit pointers may move)", ref="§4 C09"),
  "C10": dict(cat="exploration", engine="seq", tech="differential monitor live server vs. server recovered from its image vs. clean restart, plus cache/disk coherence invariant",
-   text="At flushed quiescent points the live server is compared (handles, attributes, times, listing order, bytes) with a twin recovered from a copy of the disk and with itself after a clean restart; cached inodes, name caches and allocators are compared with the logical disk. After concurrent histories: flush, restart, the tree and all handles must be unchanged.",
+   text="At flushed quiescent points the live server is compared (handles, attributes, times, listing order, bytes) with a twin recovered from a copy of the disk and with itself after a clean restart; cached inodes, name caches and allocators are compared with the logical disk. After concurrent histories: flush, restart, the tree and all handles must be unchanged. End to end: the real binary on a file disk, clean shutdown by SIGINT, restart on the same file, whole tree and handles unchanged.",
    note="quiescent points only", ref="§4 C10"),
  "C11": dict(cat="exploration", engine="hostile", tech="crash/hang monitor on a child process under structured hostile argument generation and byte-level mutation of framed RPC messages",
-   text="Hostile argument values for all NFS and MOUNT procedures of nfs.Nfs and simple.Nfs in several file-system states; the child must not die, must reply, and must pass the canary afterwards.",
+   text="Hostile argument values for all NFS and MOUNT procedures of nfs.Nfs and simple.Nfs in several file-system states; the child must not die, must reply, and must pass the canary afterwards. End to end: hostile and plausible requests over TCP to the real cmd/go-nfsd process, which must stay alive and keep agreeing with the reference.",
    note="inputs are sampled; hang criterion of DESIGN §2.6", ref="§4 C11"),
  "C12": dict(cat="exploration", engine="seq", tech="content monitor: every written byte is f(write id, offset) != 0; READs and dumps compared with the reference; free-space sweep",
    text="Block-recycling sequences on small disks with shrink/regrow to unaligned sizes, sparse writes, and a sweep that hands out every free block and reads it back.",
@@ -56,7 +56,7 @@ CHECKS = {
    text="Every size in the stated ranges is formatted by the real MakeNfs; regions, bitmaps, allocators checked; fill-to-NOSPC and delete-all on the dense range.",
    note="exhaustive over the stated ranges only", ref="§4 C15"),
  "C16": dict(cat="exploration", engine="xdr", tech="differential codec monitor (nfstypes vs. go-rpcgen rfc1813) over reflected values and arbitrary byte strings, plus dispatch probe",
-   text="Values generated by reflection for every XDR type are encoded by both codecs and must give identical bytes and round-trip; arbitrary/truncated bytes must be accepted/rejected alike; each procedure number must reach its handler.",
+   text="Values generated by reflection for every XDR type are encoded by both codecs and must give identical bytes and round-trip; arbitrary/truncated bytes must be accepted/rejected alike; each procedure number must reach its handler. End to end: all procedures through the registration done by cmd/go-nfsd's own main (real binary, TCP, MOUNT + NFS programs), replies compared with the reference, also with -stats and SIGUSR1.",
    note="rfc1813 of go-rpcgen is generated from the RFC's .x file by the same generator; hand-derived vectors guard the shared part", ref="§4 C16"),
  "C17": dict(cat="fault_enumeration", engine="simple", tech="reference-model differential + porcupine per inode + crash-image enumeration on the simple server",
    text="Sequential differential against the 30x4096-byte model (stretches with the journal's installer held back), concurrent histories partitioned by inode, crash cuts of the disk trace with simple.Recover, and observation-crash runs (a read answered while a modification is in flight must not show what a crash at that instant loses).",
